@@ -205,13 +205,13 @@ func (c CounterStyle) renderValue(counterValue int, counter *CounterStyleDescrip
 		}
 	case "symbolic":
 		initial, ok = symbolic(counter.Symbols, counterValue)
-		if !ok {
-			return c.RenderValue(signedValue, "decimal")
+		if !ok { // the value can't be represented: use the fallback style
+			return c.renderValue(signedValue, c.resolveCounter(counter.fallback(), previousTypes), previousTypes)
 		}
 	case "alphabetic":
 		initial, ok = alphabetic(counter.Symbols, counterValue)
-		if !ok {
-			return c.RenderValue(signedValue, "decimal")
+		if !ok { // the value can't be represented: use the fallback style
+			return c.renderValue(signedValue, c.resolveCounter(counter.fallback(), previousTypes), previousTypes)
 		}
 	case "numeric":
 		initial, ok = numeric(counter.Symbols, counterValue)
